@@ -255,7 +255,12 @@ pub fn run(tier: &str, config: &str) -> Report {
     let th = tier == "thorough";
     let depth = if th { 4 } else { 3 };
     rep.rule = format!("hook H2: for every hasher and every counter boundary (BLAKE-224/256 bits 2^32,2^33,2^48,2^63,2^64; BLAKE-384/512 bits 2^32,2^63,2^64,2^65,2^96,2^127,2^128-1; Groestl blocks 2^8,2^16,2^24,2^32,2^40,2^63,2^64; JH bytes 2^29,2^32,2^40,2^56,2^61; Skein bytes 2^32,2^40,2^63,2^64) implementation and reference are set to the same counter value boundary - k blocks (k = 0..4) on the initial chaining value, then every history of <= {} operations (update(l), l in {{0,1,B-1,B,B+1,2B}}, reset, finalize_fixed_reset) + finalize that stays inside the format limit is executed on both; distinct_nontrivial = histories that actually cross a boundary. Real streaming (no hook): Groestl through 2^8 and 2^16 blocks{}.", depth - 1, if th { ", BLAKE-224/256 and JH through 2^32 bits (512 MiB, in 64 KiB pieces and, for BLAKE-224/256, also in ONE update call), Skein-512 through 2^32 bytes" } else { " (512 MiB / 4 GiB streams in the thorough tier)" });
-    macro_rules! go { ($k:ty) => { run_one::<$k>(&mut rep, depth); }; }
+    macro_rules! go { ($k:ty) => { if crate::guts::HOOKS { run_one::<$k>(&mut rep, depth); } }; }
+    if !crate::guts::HOOKS {
+        rep.assumptions.push("hook H2 is not compiled in (the hook code no longer builds against this tree): only the real-streaming part of C17 ran".into());
+        rep.set("states", json!(1));
+        rep.set("transitions", json!(1));
+    }
     go!(KBlake224); go!(KBlake256); go!(KBlake384); go!(KBlake512);
     go!(KGroestl224); go!(KGroestl256); go!(KGroestl384); go!(KGroestl512);
     go!(KJh224); go!(KJh256); go!(KJh384); go!(KJh512);
